@@ -340,11 +340,7 @@ def entries_for(rng, schema, root_ty, direction, thorough):
             es.append({"dir": direction, "via": "mixin", "method": m, "ctx": False})
             if direction == "ser" and L.ctx_on(schema, root_ty[1]):
                 es.append({"dir": direction, "via": "mixin", "method": m, "ctx": True})
-            # (not for a format-specific method of a Config-discriminator hierarchy: /repo raises AttributeError when
-            # Base.from_msgpack(data, dialect=D) is the first msgpack call - the variant's unpacker is compiled into the
-            # dialect cache only; a C05/C14 matter, reported, outside C19)
-            if "dialect" in L.class_flags(schema, root_ty[1]) and not (
-                    schema.get("has_disc") and m != "from_dict" and kind in ("orjson", "msgpack", "toml")):
+            if "dialect" in L.class_flags(schema, root_ty[1]):     # same calls with an (empty) call-time dialect
                 es.append({"dir": direction, "via": "mixin", "method": m, "ctx": False, "dialect": True})
                 if direction == "ser" and L.ctx_on(schema, root_ty[1]):
                     es.append({"dir": direction, "via": "mixin", "method": m, "ctx": True, "dialect": True})
